@@ -39,6 +39,8 @@ fn build_sd(c: &C02Case, conceal: i64, disclose: i64, tamper: i64) -> Option<Bui
     2 => if let Some(d) = ds.first().cloned() { ds.push(d); },                                                                         // duplicated
     3 => ds.reverse(),                                                                                                                  // reordered
     4 => ds.push("bm90IGEgZGlzY2xvc3VyZQ".into()),                                                                                      // not a disclosure
+    // segments that are no base64url at all: long multi-byte text (error messages are built from them), emoji, empty, a lone delimiter-like byte
+    6 => ds.push("\u{e9}".repeat(64)), 7 => ds.push("\u{20ac}".repeat(45)), 8 => ds.push("\u{1f600}".repeat(41)), 9 => ds.push(format!("{}{}", "a".repeat(159), "\u{e9}\u{e9}")),
     5 => if let Some(d) = ds.first_mut() { let forged = identity_credential::sd_jwt_payload::Disclosure::new("salt0".into(), Some("name".into()), json!("mallory")).to_string(); *d = forged; },   // same claim, other value
     _ => {}
   }
@@ -103,7 +105,7 @@ pub fn exec(case: &[i64]) -> Outcome {
       validator.validate_credential::<CoreDocument, Object>(&built.token, &docs[0], &opts, if c.ff { FailFast::FirstError } else { FailFast::AllErrors }).map_err(|e| e.validation_errors)
     };
     // conditions of the statement
-    let bad_disclosures = [1, 2, 4, 5].contains(&tamper) && (tamper != 2 && tamper != 5 || !built.token.disclosures.is_empty());
+    let bad_disclosures = [1, 2, 4, 5, 6, 7, 8, 9].contains(&tamper) && (tamper != 2 && tamper != 5 || !built.token.disclosures.is_empty());
     let eff = &c.vc; let used = if multi { &c.issuers[..] } else { &c.issuers[..1] };
     let mid: Option<U> = c.method_id.or(if c.kid.0 == 2 { Some(c.kid.1) } else { None });
     let key = mid.and_then(|u| used.iter().find(|i| i.id == u.d).and_then(|d| d.resolve(u, if c.scope < 0 { 9 } else { c.scope })));
@@ -186,7 +188,7 @@ pub fn gen(rng: &mut Rng, thorough: bool, sink: &mut Sink) {
     let e = eff.enc(); let mut case = vec![1, decodes as i64]; case.extend_from_slice(&e[1..]); case.extend([conceal, disclose, tamper]); c.vc.enc(&mut case);
     sink.case(case, if tamper == 0 { "sd-credential" } else { "sd-credential-tampered" });
   };
-  for conceal in 0..8 { for disclose in 0..8 { if disclose & !conceal != 0 { continue; } for tamper in 0..6 { emit1(&base_case(), conceal, disclose, tamper, sink); } } }
+  for conceal in 0..8 { for disclose in 0..8 { if disclose & !conceal != 0 { continue; } for tamper in 0..10 { emit1(&base_case(), conceal, disclose, tamper, sink); } } }
   for (_, fs) in &muts { for f in fs { let mut c = base_case(); f(&mut c); for (conceal, disclose) in [(7, 7), (7, 0), (5, 1), (3, 2)] { emit1(&c, conceal, disclose, 0, sink); } emit1(&c, 7, 7, 1, sink); } }
   for _ in 0..(if thorough { 6000 } else { 700 }) { let mut c = base_case(); for (k, (_, fs)) in muts.iter().enumerate() { if rng.chance(if k < 7 { 1 } else { 3 }, 8) { rng.pick(fs)(&mut c); } } let conceal = rng.range(0, 7); let disclose = rng.range(0, 7) & conceal; emit1(&c, conceal, disclose, if rng.chance(1, 3) { rng.range(1, 5) } else { 0 }, sink); }
   // (1b) verify_signature over several trusted issuers (both orders, with and without the right one): kind 3
